@@ -48,7 +48,7 @@ const streamRule = "rapid: 0-50 points (write-path points through the line-proto
 
 const (
 	exNewline       = "string-field-with-newline (known: replay/stream/newline-in-string-field)"
-	exLongLine      = "point-line-over-64KiB (known: replay/stream/line-over-64KiB)"
+	exLongLine      = "point-line-over-64KiB (repaired: replay/stream/line-over-64KiB; excluded only with VERIF_C18_EXCLUDE)"
 	exBlankKey      = "field-key-beginning-with-tab-or-NUL (known: replay/stream/field-key-leading-blank-lost)"
 	exNameBackslash = "backslash-before-metachar-in-measurement-tag-or-field-key (known: replay/stream/backslash-before-metachar-in-name)"
 )
@@ -141,10 +141,10 @@ func genStream(r *kit.Rec) func(t *rapid.T) StreamCase {
 						f.V = "x"
 					}
 					if keep("longline") {
-						// a record of more than 64 KiB: sizes around the limit of the line scanner
-						f.Rep = rapid.SampledFrom([]int{70000, 65536, 66000}).Draw(t, "big-rep")/len(f.V) + 1
+						// long records, below and above 64 KiB (the default token limit of a line scanner)
+						f.Rep = rapid.SampledFrom([]int{20000, 60000, 65536, 66000, 70000, 200000}).Draw(t, "big-rep")/len(f.V) + 1
 					} else {
-						// known defect: records over 64 KiB cannot be read back. Stay below (long but legal), counted.
+						// repaired defect (VERIF_C18_EXCLUDE=longline only): records over 64 KiB could not be read back. Stay below, counted.
 						r.Exclude(exLongLine)
 						f.Rep = rapid.SampledFrom([]int{20000, 60000, 4096}).Draw(t, "big-rep")/len(f.V) + 1
 					}
@@ -488,7 +488,7 @@ var streamAssumptions = []string{
 	"timestamps lie in [-2e18, 3e18] ns and the clock zero in [0, 2e18] so that a shifted timestamp is representable; strings are valid UTF-8 (the case file is JSON)",
 	"the replay clock is a kapacitor/clock settable clock set to year 9999 before the replay starts: Until never blocks; a 30 s bound is hang detection only (signature replay/hang)",
 	"the recording bytes are handed to ReplayStreamFromIO directly (the gzip layer of the file data source is transparent and left out)",
-	"excluded by construction (known defects, witnesses under replays/C18): a string field containing a newline; a point whose record is longer than 64 KiB",
+	"excluded by construction (known findings, witnesses under replays/C18): a string field containing a newline; a measurement, tag key, tag value or field key with a backslash directly before , = space \" \\ or at its end; a field key beginning with tab or NUL. Records longer than 64 KiB (defect repaired by a fix: commit) are generated; VERIF_C18_EXCLUDE=longline excludes them again",
 }
 
 func TestStream(t *testing.T) {
